@@ -288,9 +288,20 @@ func oracleC03Sites(p *Pair, env *Env, a [][]byte) *Failure {
 	if err != nil {
 		return &Failure{What: "harness: cannot parse /repo sources", Detail: err.Error()}
 	}
-	if strings.Join(got, "\n") != strings.Join(expectedMapRanges, "\n") {
-		return &Failure{What: "obligation: the set of `range` loops over maps in the modelled packages changed; order-freeness of the new site is not proved",
-			Detail: fmt.Sprintf("found    %q\nexpected %q", got, expectedMapRanges)}
+	// only a site the model does not cover is an open obligation; a covered site that disappeared is none
+	known := map[string]bool{}
+	for _, e := range expectedMapRanges {
+		known[e] = true
+	}
+	var fresh []string
+	for _, g := range got {
+		if !known[g] {
+			fresh = append(fresh, g)
+		}
+	}
+	if len(fresh) > 0 {
+		return &Failure{What: "obligation: a `range` loop over a map appeared in the modelled packages; order-freeness of the new site is not proved",
+			Detail: fmt.Sprintf("new      %q\nfound    %q\nexpected %q", fresh, got, expectedMapRanges)}
 	}
 	return nil
 }
